@@ -275,6 +275,66 @@ def h_twin_headers(ctx):
     return Outcome(f"twins:{'ok' if not vs else 'bad'}:{path}", vs, nontrivial=(alg, path, repr(first), repr(second), where))
 
 
+SECRETS = [("ends in LF", "t"), ("ends in CR LF", "crlf"), ("ends in a blank", "sp"), ("begins with a blank", "lsp"), ("ends in NUL", "nul"), ("plain", "plain")]
+
+
+def secret_octets(shape, n):
+    base = ("0123456789abcdefghijklmnopqrstuvwxyzABCDEFGHIJKLMNOPQRSTUVWXYZ-_" * 3).encode()
+    if shape == "t":
+        return base[:n - 1] + b"\n"
+    if shape == "crlf":
+        return base[:n - 2] + b"\r\n"
+    if shape == "sp":
+        return base[:n - 1] + b" "
+    if shape == "lsp":
+        return b" " + base[:n - 1]
+    if shape == "nul":
+        return base[:n - 1] + b"\x00"
+    return base[:n]
+
+
+def h_secret_forms(ctx):
+    """HMAC keys whose octets end (or begin) in white space - a secret read from a file - handed to joserfc as octets, as text or as a JWK: the MAC is
+    made with exactly those octets, in both directions with the independent implementation."""
+    from joserfc import jws
+    from joserfc.jwk import OctKey
+    alg, n = ctx.choose("alg/size", [("HS256", 32), ("HS384", 48), ("HS512", 64), ("HS256", 33)])
+    label, shape = ctx.choose("secret", SECRETS)
+    form = ctx.choose("given_as", ["bytes", "str", "bytearray", "jwk", "raw str as the key argument"])
+    direction = ctx.choose("direction", ["joserfc signs, reference verifies", "reference signs, joserfc verifies"])
+    raw = secret_octets(shape, n)
+    jwk = {"kty": "oct", "k": b64.enc(raw)}
+
+    def key():
+        if form == "bytes":
+            return OctKey.import_key(raw)
+        if form == "bytearray":
+            return OctKey.import_key(bytearray(raw))
+        if form == "str":
+            return OctKey.import_key(raw.decode("ascii"))
+        if form == "jwk":
+            return OctKey.import_key(dict(jwk))
+        return raw.decode("ascii")
+    vs = []
+    what = f"{alg}, a {n}-octet secret that {label}, given as {form}; {direction}"
+    seg = b64.enc(rjws.hdr_json({"alg": alg}).encode())
+    if direction.startswith("joserfc signs"):
+        r = call(lambda: jws.serialize_compact({"alg": alg}, b"payload", key(), algorithms=[alg]))
+        if not r.ok:
+            vs.append(viol(f"signing fails with an HMAC secret given as {form}", f"{what}: {r.exc!r}"))
+        else:
+            try:
+                rjws.verify_compact(r.value, jwk)
+            except RefError as e:
+                vs.append(viol(f"independent verifier rejects a MAC made with a secret given as {form} [the secret {label}]", f"{what}: {e!r}"))
+    else:
+        tok = seg + "." + b64.enc(b"payload") + "." + b64.enc(jws_sign(alg, jwk, rjws.signing_input(seg, b"payload", True)))
+        r = call(lambda: bytes(jws.deserialize_compact(tok, key(), algorithms=[alg]).payload))
+        if not r.ok or r.value != b"payload":
+            vs.append(viol(f"joserfc rejects a valid peer token when its secret is given as {form} [the secret {label}]", f"{what}: {r.exc!r}"))
+    return Outcome(f"secret:{'ok' if not vs else 'bad'}:{form}", vs, nontrivial=(alg, n, shape, form, direction))
+
+
 def h_long(ctx):
     """Both directions with payloads around 64 KiB and its multiples."""
     if ctx.choose("direction", ["joserfc-to-ref", "ref-to-joserfc"]) == "joserfc-to-ref":
@@ -386,6 +446,7 @@ PARTS = [
     _pms, _pne,
     Part("thread-schedules", h_threads, bound={"quick": 1, "thorough": 2}, split_depth=3, budget={"quick": 2000, "thorough": 3000}, engine="E3"),
     Part("long-payloads", h_long, split_depth=2),
+    Part("hmac-secrets-in-every-form", h_secret_forms, split_depth=2),
     Part("headers-that-compare-equal-signed-in-sequence", h_twin_headers, split_depth=2),
     Part("ref-to-joserfc", h_from_ref, split_depth=2, budget={"quick": 1200, "thorough": 1500}),
     Part("joserfc-to-ref", h_to_ref, split_depth=2, budget={"quick": 1200, "thorough": 1500}),
